@@ -86,15 +86,21 @@ def make_files(ctx, fa, n, label):
         ir = g.schema(top=rnd.choice(["record"] * 4 + ["prim", "array", "union", "enum"]))
         raw = g.render(ir)
         nrec = rnd.choice([0, 1, 2, 3, 5, 9])
+        if rnd.random() < 0.25:
+            # blocks whose record count needs a multi-byte varint
+            g = gen.Gen(rnd, logical=False, max_depth=1, big=False)
+            ir = g.schema(top=rnd.choice(["prim", "enum", "union"]))
+            raw = g.render(ir)
+            nrec = rnd.choice([64, 70, 130])
         try:
             records = [g.datum(ir, hints=False) for _ in range(nrec)]
             fo = io.BytesIO()
-            fa.writer(fo, raw, records, codec=rnd.choice(codecs), sync_interval=rnd.choice([1, 8, 30, 100, 100000]),
+            fa.writer(fo, raw, records, codec=rnd.choice(codecs), sync_interval=rnd.choice([1, 8, 30, 100, 100000] if nrec < 64 else [100000, 300]),
                       sync_marker=bytes(rnd.getrandbits(8) for _ in range(16)))
         except Exception:  # noqa: BLE001 - file production problems are C04's business
             continue
         data = fo.getvalue()
-        if len(data) > (700 if ctx.quick() else 4000):
+        if len(data) > (900 if ctx.quick() else 4000):
             continue
         out.append(data)
     return out
